@@ -15,6 +15,7 @@ package peers
 import (
 	"context"
 	"encoding/json"
+	"errors"
 	"fmt"
 	"os"
 	"os/exec"
@@ -147,11 +148,11 @@ func flatten(sc vScenario) (ops []vOp, first []int) {
 	return
 }
 
-func seqOutcomes(t *testing.T, sc vScenario) ([]seqOutcome, error) {
+func seqOutcomes(t *testing.T, sc vScenario, deadline time.Time) ([]seqOutcome, error) {
 	var out []seqOutcome
 	var ferr error
 	seen := map[string]bool{}
-	vx.DFS(vx.DFSOpts{Bound: 1 << 30}, func(e *vx.Exec) (string, error) {
+	st := vx.DFS(vx.DFSOpts{Bound: 1 << 30, Deadline: deadline}, func(e *vx.Exec) (string, error) {
 		r := runScenario(t, sc, e, false, true)
 		if r.err != nil {
 			return "ERR", r.err
@@ -183,8 +184,15 @@ func seqOutcomes(t *testing.T, sc vScenario) ([]seqOutcome, error) {
 			ferr = err // e.g. the lock-order deadlock also shows with atomic operations
 		}
 	})
+	if ferr == nil && !st.Complete {
+		return nil, errSeqCut
+	}
 	return out, ferr
 }
+
+// errSeqCut: the sequential reference of a scenario could not be completed in its budget; the
+// scenario is then not judged at all (an incomplete reference would raise false alarms).
+var errSeqCut = errors.New("harness-budget: sequential reference not completed")
 
 type scExecResult struct {
 	res     vsched.Result
@@ -432,7 +440,12 @@ func poolSCExplore(t *testing.T, sc vScenario, bounds []int, deadline time.Time)
 			res.Violations = append(res.Violations, poolSCViolation{sig, what, replay})
 		}
 	}
-	seqs, serr := seqOutcomes(t, sc)
+	// the reference may use at most half of the scenario's budget
+	seqs, serr := seqOutcomes(t, sc, time.Now().Add(time.Until(deadline)/2))
+	if serr == errSeqCut {
+		res.Exhaustive = false
+		return res
+	}
 	if serr != nil {
 		viol(vSigOf(serr), serr.Error(), map[string]any{"part": "pool-sc", "scenario": sc, "atomic": true})
 		res.Exhaustive = false
@@ -564,7 +577,7 @@ func replayPoolSC(t *testing.T, rep *vx.Report, raw json.RawMessage) {
 		t.Fatal(err)
 	}
 	runtime.GOMAXPROCS(1)
-	seqs, _ := seqOutcomes(t, doc.Scenario)
+	seqs, _ := seqOutcomes(t, doc.Scenario, time.Time{})
 	var first string
 	var verr error
 	for i := 0; i < 5; i++ {
@@ -647,9 +660,9 @@ func TestVerifC17(t *testing.T) {
 	// each part gets its own share of the budget (a cut part must not starve the others)
 	total := time.Until(deadline)
 	start := time.Now()
-	ex := poolSC(t, rep, start.Add(total*4/10))
+	ex := managerEV(t, rep, start.Add(total*4/10))
 	ex = poolSeq(t, rep, start.Add(total*6/10)) && ex
-	ex = managerEV(t, rep, deadline) && ex
+	ex = poolSC(t, rep, deadline) && ex
 	rep.SetExhaustive(ex)
 	if rep.Finish() > 0 {
 		t.Fail()
